@@ -237,7 +237,7 @@ def cell_neq(a, b):
     return z3.Or(a[0] != b[0], z3.And(z3.Not(a[0]), a[1] != b[1]))
 
 
-def data_query(start_master, stmts, spec, muts):
+def data_query(start_master, stmts, spec, muts, start_catalog=None):
     """C02. -> dict(result, detail, model, solver_s)"""
     vals = S.Values()
     st = S.DataState(vals, NROWS)
@@ -283,6 +283,10 @@ def data_query(start_master, stmts, spec, muts):
                 if c['notnull'] or c['pk']:
                     for r in range(NROWS):
                         s.add(z3.Not(start_rows[name][r][c['name']][0]))
+    if start_catalog is not None:
+        # the start database is a valid database: primary keys, uniques, checks, foreign keys hold
+        common = dict((t, start_catalog[t]) for t in start_catalog if t in start_rows)
+        s.add(S.acceptance(common, start_rows, vals))
     if not disj:
         return {'result': 'unsat', 'detail': 'no obligations', 'model': None, 'solver_s': 0.0,
                 'cells': 0}
